@@ -54,7 +54,6 @@ func H_rendererr(depth, L int, sameNS bool) {
 	verifObserve("msg-has-line", strconv.FormatBool(has19(err.Error(), ":"+strconv.Itoa(fp.Line()))))
 }
 
-
 // H_writeerrpos: a render that fails because the writer fails: the body is L pairs of lines
 // "{$x} // c" / "b{$x}" (three single-byte writes per pair; the text starts on the second line); the write that fails is chosen
 // symbolically; the error names the entry file and the line of the command whose write failed.
